@@ -22,7 +22,9 @@ use crate::services::helpers::{build_non_credential_schema, get_requested_non_re
 use crate::utils::query::Query;
 use crate::utils::validation::LEGACY_DID_IDENTIFIER;
 
-use anoncreds_clsignatures::{NonCredentialSchema, Proof, ProofVerifier, SubProof};
+use anoncreds_clsignatures::{
+    NonCredentialSchema, PredicateType, Proof, ProofVerifier, SubProof,
+};
 use once_cell::sync::Lazy;
 use regex::Regex;
 use std::collections::{HashMap, HashSet};
@@ -887,6 +889,17 @@ impl<'a> CLProofVerifier<'a> {
 
         let attributes: Vec<String> = sub_proof.revealed_attrs()?.keys().cloned().collect();
         let predicates = sub_proof.predicates();
+
+        // the CL layer computes `value + 1` / `value - 1` for strict comparisons
+        if predicates.iter().any(|p| {
+            (p.p_type == PredicateType::GT && p.value == i32::MAX)
+                || (p.p_type == PredicateType::LT && p.value == i32::MIN)
+        }) {
+            return Err(err_msg!(
+                ProofRejected,
+                "Predicate threshold is outside of the supported range"
+            ));
+        }
 
         let sub_pres_request = build_sub_proof_request(&attributes, &predicates)?;
         let rev_key_pub = rev_reg_def.map(|d| &d.value.public_keys.accum_key);
